@@ -49,7 +49,7 @@ def letters():
         ('BIT 0,(IX+1)', (0xDD, 0xCB, 0x01, 0x46)),
         ('LD BC,3;CPIR', (0x01, 0x03, 0x00, 0xED, 0xB1)),
         ('IN A,(FE)', (0xDB, 0xFE)),
-        ('OUT (FE),A', (0xD3, 0xFE)),
+        ('OUT (FE),A', (0x3E, 0x02, 0xD3, 0xFE)),       # LD A,2 first: a colour different from the one the epilogue writes in the next frame
         ('LD B,3;DJNZ', (0x06, 0x03, 0x10, 0xFE)),
         ('SMC', None),
         ('RLD', (0xED, 0x6F)),
